@@ -72,7 +72,7 @@ def main():
                 r, o = sh('./check %s --tier quick' % p, cwd=V)
                 lines = [l.strip()[:400] for l in o.splitlines() if ' VIOLATION at ' in l or 'ANALYSIS-BROKEN' in l]
                 return p, r, lines
-            with ThreadPoolExecutor(max_workers=6) as ex:
+            with ThreadPoolExecutor(max_workers=14) as ex:
                 for p, r, lines in ex.map(one, props):
                     results[p] = (r, lines)
         finally:
